@@ -134,7 +134,7 @@ func (s *Store) Delete(_ context.Context, key ds.Key) error {
 }
 
 func (s *Store) Sync(context.Context, ds.Key) error { return nil }
-func (s *Store) Close() error                        { return nil }
+func (s *Store) Close() error                       { return nil }
 
 func (s *Store) Query(_ context.Context, q query.Query) (query.Results, error) {
 	s.mu.Lock()
